@@ -262,9 +262,7 @@ def explore(fn, max_paths=64, base=(), prune_timeout_ms=0):
         try:
             try:
                 res = fn()
-            except SymbolicBranch:
-                raise
-            except Exception as e:  # noqa - the kernel's own exceptions are results
+            except Exception as e:  # noqa - the kernel's own exceptions (and unexplorable branches) are results
                 res = e
             taken = _TRAIL.taken
         finally:
@@ -287,11 +285,18 @@ class ZI:
     def _lift(self, o):
         return o.e if isinstance(o, ZI) else z3.IntVal(int(o))
 
+    def _sh(self, o):
+        if isinstance(o, ZI):
+            return o.sh
+        return int(o)
+
     def __add__(self, o):
-        return ZI(self.e + self._lift(o))
+        so = self._sh(o)
+        return ZI(self.e + self._lift(o), (self.sh + so) if self.sh is not None and so is not None else None)
 
     def __sub__(self, o):
-        return ZI(self.e - self._lift(o))
+        so = self._sh(o)
+        return ZI(self.e - self._lift(o), (self.sh - so) if self.sh is not None and so is not None else None)
 
     def __lt__(self, o):
         return ZB(self.e < self._lift(o))
@@ -314,8 +319,25 @@ class ZI:
     __hash__ = None
     BOUND = 16
 
+    def __neg__(self):
+        return ZI(-self.e, -self.sh if self.sh is not None else None)
+
+    def __radd__(self, o):
+        return ZI(self._lift(o) + self.e, (int(o) + self.sh) if self.sh is not None else None)
+
+    def __rsub__(self, o):
+        return ZI(self._lift(o) - self.e, (int(o) - self.sh) if self.sh is not None else None)
+
+    def __bool__(self):
+        return bool(ZB(self.e != 0))
+
     def __index__(self):
-        for k in range(-1, self.BOUND + 1):
+        # the value exact arithmetic gives (shadow) first, then the neighbours
+        cands = []
+        if self.sh is not None:
+            cands = [self.sh, self.sh + 1, self.sh - 1]
+        cands += [k for k in range(-1, self.BOUND + 1) if k not in cands]
+        for k in cands:
             if ZB(self.e == k):
                 return k
         raise SymbolicBranch("index outside the bound")
@@ -332,3 +354,38 @@ def _zf_int(self):
 
 ZF.__int__ = _zf_int
 ZF.__trunc__ = _zf_int
+
+
+def zf_ceil(x):
+    import math
+
+    if isinstance(x, ZF):
+        return ZF(z3.fpRoundToIntegral(z3.RTP(), x.e), None if x.sh is None else type(x.sh)(math.ceil(x.sh)))
+    return math.ceil(x)
+
+
+def zf_floor(x):
+    import math
+
+    if isinstance(x, ZF):
+        return ZF(z3.fpRoundToIntegral(z3.RTN(), x.e), None if x.sh is None else type(x.sh)(math.floor(x.sh)))
+    return math.floor(x)
+
+
+def kx_int(x=0, *a):
+    if isinstance(x, ZF):
+        return x.__int__()
+    if isinstance(x, ZI):
+        return x
+    return int(x, *a)
+
+
+def kx_max(*args):
+    """builtin max over values that may be ZI / ZF: pairwise, through (forking) comparisons"""
+    if len(args) == 1:
+        args = tuple(args[0])
+    m = args[0]
+    for x in args[1:]:
+        if x > m:
+            m = x
+    return m
